@@ -70,6 +70,12 @@ def random_cases(rng, n, bias):
             cfg["attempts"] = rng.choice(bias["attempts"])
         prof = rng.choice(profiles)
         fa = rng.choice(bias.get("fair_after", [None, None, 3, 6]))
+        if rng.random() < bias.get("real_p", 0.15):
+            # a share of the histories runs through the REAL Slurm / LSF adapter over a scripted process layer
+            # (harness/exec_real.py): same case format, same model comparison, same monitor
+            from harness import exec_real
+            out.append(exec_real.random_history(rng, nodes, cfg, prof, fa, bias, shape))
+            continue
         c = H.run_history(nodes, cfg, rng, profile=prof, max_polls=bias.get("max_polls", 14), fair_after=fa,
                           fair_bound=bias.get("fair_bound", 80), cancel_p=bias.get("cancel_p", 0.04),
                           qerr_p=bias.get("qerr_p", 0.015), qnojobs_p=bias.get("qnojobs_p", 0.06),
@@ -93,7 +99,8 @@ def corpus_cases(pid):
             c = H.run_history(d["nodes"], d["cfg"], random.Random(0), scripted_pins=d["pins"], via_conductor=via)
             c["origin"] = "corpus:" + os.path.basename(f)
             out.append(c)
-    return out
+    from harness import exec_real
+    return out + exec_real.corpus_cases()       # corpus/exec_real/*.json: histories through the real adapters
 
 
 def liveness_bound(case):
@@ -207,6 +214,10 @@ def run_exec(ck, pidnum, bias, quick_n=500, thorough_n=12000, tiny=None, extra=N
             if pidnum in (5, 7):
                 ck.violation("fair continuation did not terminate within %d polls" % liveness_bound(c), strip(c))
     concrete, mism = evaluate(ck, pidnum, cases, pid)
+    from harness import exec_real
+    # real-adapter histories: a job the scheduler accepted that Maestro recorded as a failed submission is alive
+    # and uncounted (C03) / orphaned (C04), whatever the engine-level trace says
+    concrete += exec_real.violations(cases, pidnum)
     for c in cases:
         ck.count(case_key(c), nontrivial(c))
     for c in cases[ncorpus:ncorpus + 1] + cases[-2:]:
@@ -270,6 +281,9 @@ def run_exec(ck, pidnum, bias, quick_n=500, thorough_n=12000, tiny=None, extra=N
 def replay_exec(ck, pidnum, path):
     d = json.load(open(path))
     d = d.get("case", d)
+    from harness import exec_real
+    if exec_real.is_real(d):
+        return exec_real.replay(ck, pidnum, d)
     c = H.run_history(d["nodes"], d["cfg"], random.Random(0), scripted_pins=d["pins"])
     print(json.dumps(strip(c), indent=1))
     if H.representable(c):
